@@ -314,7 +314,8 @@ def oracle_refined(np, a2, rough, refined, p, dtype="f32"):
     half = p / 2
     if refined[0] is None or refined[1] is None or not (abs(refined[0] - rough[0]) <= half + BOUND_SLACK[dtype]
                                                          and abs(refined[1] - rough[1]) <= half + BOUND_SLACK[dtype]):
-        sigs = explain_bound_failure(np, a2, int(rough[0]), int(rough[1]), p)
+        obs = None if refined[0] is None or refined[1] is None else (refined[0] - rough[0], refined[1] - rough[1])
+        sigs = explain_bound_failure(np, a2, int(rough[0]), int(rough[1]), p, obs, dtype)
         hh, ww = a2.shape
         inb = 0 <= int(rough[1]) < hh and 0 <= int(rough[0]) < ww
         if inb and a2[int(rough[1]), int(rough[0])] != a2.max():
